@@ -544,7 +544,7 @@ func blameLevel(r *rnode, cur int8) *rnode {
 			return b
 		}
 	}
-	if r.core != nil && int8(zapcore.LevelOf(r.core)) != minLevel(r, cur) {
+	if r.core != nil && !levelOK(r, int8(zapcore.LevelOf(r.core)), cur) {
 		return r
 	}
 	return nil
@@ -597,12 +597,18 @@ func (t *rt) checkLevels(rp *reporter, part string, root *rnode, who string, lev
 	}
 	n++
 	gotL, wantL := int8(zapcore.LevelOf(root.core)), minLevel(root, t.cur)
-	if gotL != wantL {
+	if tm := trueMin(root, t.cur); tm < lDebug && !hasAllEnabler(root) {
+		wantL = tm
+	}
+	if !levelOK(root, gotL, t.cur) {
 		b := blameLevel(root, t.cur)
 		if b == nil {
 			b = root
 		}
 		bg, bw := int8(zapcore.LevelOf(b.core)), minLevel(b, t.cur)
+		if tm := trueMin(b, t.cur); tm < lDebug && !hasAllEnabler(b) {
+			bw = tm
+		}
 		var key string
 		switch {
 		case b.k == kTee && bw == lInvalid && bg == lFatal:
@@ -613,7 +619,7 @@ func (t *rt) checkLevels(rp *reporter, part string, root *rnode, who string, lev
 			key = fmt.Sprintf("level:%s:reports-%s-while-minimum-delivered-is-%s%s", kindLong[b.k], lvlName(bg), lvlName(bw), changed)
 		}
 		rp.hit(key, func() (string, any) {
-			return fmt.Sprintf("tree %s (atomic level %s, built at %s), %s: LevelOf = %s but the minimum named level delivered anywhere is %s (first deviating node: %s reports %s, reference %s)", t.tree, lvlName(t.cur), lvlName(t.cons), who, lvlName(gotL), lvlName(wantL), kindLong[b.k], lvlName(bg), lvlName(bw)), rep("LevelOf")
+			return fmt.Sprintf("tree %s (atomic level %s, built at %s), %s: LevelOf = %s but the minimum level delivered anywhere is %s (first deviating node: %s reports %s, reference %s)", t.tree, lvlName(t.cur), lvlName(t.cons), who, lvlName(gotL), lvlName(wantL), kindLong[b.k], lvlName(bg), lvlName(bw)), rep("LevelOf")
 		})
 	}
 	return n
